@@ -213,6 +213,19 @@ def frame_work(ctx, acc):
                 continue
             if got != base:
                 acc.add_problem(problem("child_verdict_depends_on_route", case, expected=base, observed=got, rule=ctx.rule))
+            # fail-fast on the parent while it hangs below another node: same class of error as for a root
+            if ra.verdict(tuple(seq)) == "reject":
+                p.parent = wrapper
+                try:
+                    _validate.node(p)
+                    ff = None
+                except Exception as e:  # noqa
+                    ff = e
+                p.parent = None
+                if ff is not None and not isinstance(ff, CHILD_EXC):
+                    acc.add_problem(problem("wrong_error_kind", dict(case, parent_is_root=False),
+                                            expected="ChildNotAllowed/MinOccurrenceUnmet/MaxOccurrenceExceeded", observed=repr(ff),
+                                            rule=ctx.rule, mode="fail-fast"))
     # validate - rearrange in place - validate: the verdict is that of the sequence as it is now.  The rearrangements keep
     # the number of children: a hard shift of one child, a child renamed where it stands, two list items exchanged.
     from metapype.model.node import Shift
